@@ -132,6 +132,15 @@ CLAIMED['C16'] = dict(
     note='Trusted: z3; the numeric kernel is a stub, so NewtonSolver termination (maxiter/bt_maxiter/time_limit) and finiteness of values are outside; one template; <= 4 hydraulic steps.',
     ref='DESIGN.md section 4, C16')
 
+CLAIMED['C11'] = dict(
+    engine='symx+ctrlplane',
+    technique='symbolic execution of the real run_sim loop (Newton solve stubbed), reset_initial_values, deepcopy and to_dict on a model holding z3 proxies, with symbolic control instants / values / thresholds; every feasible path explored; SMT (z3) decides equality of every symbolic leaf of the model dictionary before/after and of the recorded runs',
+    text='For controls on pipe, valve and pump status, valve setting, leak_status (junction and tank), a tank-level control and a rule, with symbolic instants and values: the dictionary of the model is identical '
+         'before and after a run; after reset_initial_values a rerun - also after a run that was cut short - records exactly the same times, statuses, settings, tank heads, leak flags and demands; a deepcopy '
+         'records the same. write_inpfile (the Python half of EpanetSimulator) leaves the dictionary unchanged.',
+    note='Trusted: z3; Newton solve stubbed (numeric reruns up to floating-point noise are outside); one scenario network; <= 2 hydraulic steps. Known findings: controls on pump power and on pump base_speed write the definition.',
+    ref='DESIGN.md section 4, C11')
+
 NOT_APPLICABLE = {
     'C03': 'compares the numerical output of the closed EPANET shared library with a compiled Newton/SuperLU iteration; neither can be executed '
            'symbolically with the tools on this image and a contract standing in for EPANET would be the property itself (DESIGN.md section 5)',
